@@ -19,10 +19,10 @@ use crate::c17::*;
 /// logic.
 
 #[test]
-fn kani_concrete_playback_c17_time_nat_shift_stays_nat_661955553485420973() {
+fn kani_concrete_playback_c17_time_nat_shift_stays_nat_9425129852802679197() {
     let concrete_vals: Vec<Vec<u8>> = vec![
         // 0
-        vec![0, 0, 0, 0, 0, 0, 0, 0],
+        vec![0, 0, 0, 0],
         // 536870912
         vec![0, 0, 0, 32],
     ];
